@@ -53,6 +53,14 @@ def run(ctx):
                 cls, d = S.fields(rest)
                 if cls.startswith("Err") or cls == "Panic":
                     violations.append({"what": "after the crash, %s fails: %s" % (kind, cls), "classification": {"kind": "unusable", "op": kind}, "replay": replay})
+        # ensure of the crashed operation's own key by the fresh process: whatever the crash left behind,
+        # afterwards the key is in the write cache (populated, or promoted from the read-only level)
+        ens = r2.results.get(3)
+        if ens and ens[0] == "ensure" and desc["pre"] != "over" and r2.snaps:
+            cls3, _ = S.fields(ens[1])
+            held = [l.split(" ")[0] for l in r2.snaps[-1] if l.split(" ")[1] == "f" and l.split(" ")[0].startswith("w/") and ".kismet_temp/" not in l.split(" ")[0] and l.split(" ")[0].rsplit("/", 1)[1] == CR.KEY[0]]
+            if cls3 == "OkSome" and not held:
+                violations.append({"what": "after the crash, ensure of the same key by a fresh process reports success but the key is not in the write cache", "classification": {"kind": "ensure-does-not-publish"}, "replay": replay})
         last = r2.results.get(max(r2.results)) if r2.results else None
         # (in the over-capacity pre-state the cache may legitimately evict the key again)
         if last and desc["pre"] != "over" and not last[1].startswith("OkSome content=Q"):
@@ -82,7 +90,7 @@ def run(ctx):
         if k not in seen:
             seen.add(k); uniq.append(v)
     cov = {"evaluations": len(res), "distinct_nontrivial": nontriv,
-           "rule": "operation {set, put, set_temp_file, ensure (miss and promotion of a secondary hit), get_or_update Replace, temp-directory creation} x front-end {plain, sharded} x pre-state {empty directory, directories missing, key present, over capacity so that maintenance runs, secondary hit}: the process is killed before EVERY filesystem call of the operation (and after the last); then a fresh process snapshots the tree and runs get/touch/put/set/ensure/get; two hours later (scripted clock) another process writes with maintenance firing. Oracles: key-named files complete and read-only, debris only under .kismet_temp, all later operations succeed with normal semantics, young debris left alone, old debris of a maintained directory reclaimed; everything compared with the model crashed at the same call. Non-trivial = the boundary lies after the first and before the last mutating call.",
+           "rule": "operation {set, put, set_temp_file, ensure (miss and promotion of a secondary hit), get_or_update Replace, temp-directory creation} x front-end {plain, sharded} x pre-state {empty directory, directories missing, key present, over capacity so that maintenance runs, secondary hit}: the process is killed before EVERY filesystem call of the operation (and after the last); then a fresh process snapshots the tree and runs get/touch/ensure (of the crashed operation's key: it must end up in the write cache)/put/set/ensure/get; two hours later (scripted clock) another process writes with maintenance firing. Oracles: key-named files complete and read-only, debris only under .kismet_temp, all later operations succeed with normal semantics, young debris left alone, old debris of a maintained directory reclaimed; everything compared with the model crashed at the same call. Non-trivial = the boundary lies after the first and before the last mutating call.",
            "samples": samples, "traces_validated_against_impl": agree}
     if not ctx.quick():
         rc, o = C.coqchk(PROPS)
